@@ -24,7 +24,26 @@ CHECKS = {
     },
 }
 
+CHECKS["C20"] = {
+    "title": "config parsing never crashes, trees round-trip",
+    "go": GO,
+    "crash_is_violation": True,
+    "units": [
+        {"name": "cfgparser", "pkg": "framework/cfgparser",
+         "overlay": {"verif_c20_test.go": "harness/C20/cfgparser_test.go"},
+         "fuzz": {"targets": ["FuzzVerifC20"], "seconds": 150}},
+    ],
+    "quick": {"n": 60000, "shards": 8, "mem_kb": 6 * 1024 * 1024},
+    "thorough": {"n": 2400000, "shards": 16, "mem_kb": 6 * 1024 * 1024},
+    "level_text": "randomised search (rapid) over grammar-generated configuration documents plus byte mutations, and over generated trees; "
+                  "oracle = no panic / returns under a watchdog / result fully expanded, well-named, depth-bounded / print-parse round trip. "
+                  "Thorough tier adds native coverage-guided fuzzing of the same oracle.",
+    "level_note": "termination is judged by a 10 s watchdog and a 6 GiB address-space limit on inputs that normally take microseconds; "
+                  "the canonical printer and the expressibility predicate are the harness's own",
+    "technique": "property-based testing (rapid grammar generator + mutation) and native go fuzzing with an in-target semantic oracle",
+}
+
 # properties deliberately not claimed: {"property_id":..., "reason":...}
 NOT_APPLICABLE = []
 
-FIX_COMMITS = ["b0fbfbf", "ce16772", "79536cb"]
+FIX_COMMITS = ["b0fbfbf", "ce16772", "79536cb", "9da7ceb", "ba9a898"]
